@@ -32,6 +32,7 @@ def dispatch (line : String) : String :=
     | "sched-rec-overlap" => schedRecOverlapCmd rest
     | "catcher-api" => catcherApiCmd rest
     | "rec-tick" => recTickCmd rest
+    | "conc-events" => concEventsCmd rest
     | "conc-coll" => concCollCmd rest
     | "catcher" => catcherCmd rest
     | "views" => viewsCmd rest
@@ -42,6 +43,7 @@ def dispatch (line : String) : String :=
     | "hdr-merge" => hdrMerge rest
     | "hdr-window" => hdrWindow rest
     | "hdr-import" => hdrImport rest
+    | "hdr-ops" => hdrOps rest
     | _ => "bad-op"
 
 partial def loop (hin hout : IO.FS.Stream) : IO Unit := do
